@@ -14,7 +14,8 @@ Pub(r) == <<r.valid, r.up, r.down, r.tgt>>
 ValidateFails(e, ch) ==
   LET c == e.cls  w == e.seq  r == e.res
       t == Typing(c.toks, c.enz, c.role, w)
-  IN Chk("C06:SameAsFresh", Pub(r) = Pub(e.fresh) /\ r.exc = e.fresh.exc)
+  IN Chk("C06:SameWrapperSameAnswer", r.again)        \* is_valid() asked again on the same wrapper, after the other queries
+     \cup Chk("C06:SameAsFresh", Pub(r) = Pub(e.fresh) /\ r.exc = e.fresh.exc)
      \cup (IF e.circ /\ IsNucWord(w) /\ r.exc = ""
            THEN Chk("C06:VerdictIndependent", r.valid = t.ok /\ (t.ok /\ r.valid => r.up = t.up /\ r.down = t.down /\ r.tgt = t.tgt))
            ELSE {})
